@@ -29,7 +29,7 @@ PROPS = {
     'C16': hp(['class', 'code', 'body', 'msg'], 'Lean: escape_safe, escape_entities, errPage_html, errPage_kinds, callback_error_body; tie: status, body kind and the rendered message of the request-derived error text; oracle: markers in every client-controlled field never appear unescaped in HTML, JSON bodies parse and carry the message as a string, anything else is text/plain'),
     'C17': hp(['class', 'code', 'jar', 'calls'], 'Lean: only_callback_5xx_partial (K1 named), bad_is_absent, unusable_redirects, heals, stored_uri_bounded; tie: class, code, jar; oracle: no panic, no 5xx unless the scripted provider misbehaved, login from the resulting jar succeeds and the next request is forwarded', extra_facts=['maxIncomingPathLength', 'maxCookieSize', 'absoluteSessionTimeoutSec'], crash_is_violation=True),
     'C07': dict(
-        family='session', driver_family='handler', fields=['jar'], facts=['maxCookieSize', 'absoluteSessionTimeoutSec', 'mainCookieName', 'accessTokenCookie', 'refreshTokenCookie'],
+        family='session', driver_family='handler', fields=['jar', 'saveErr'], facts=['maxCookieSize', 'absoluteSessionTimeoutSec', 'mainCookieName', 'accessTokenCookie', 'refreshTokenCookie'],
         trusted=['gzip+base64 is an abstract injective codec in the model (decompress (compress t) = t, compress t != ""); its real round trip is exercised by every run',
                  'browser Set-Cookie semantics: replace by name, delete on Max-Age<=0 (harness jar)'],
         rule='one case = one Save (or Clear) of a SessionData obtained through the exported SessionManager API, through a browser jar: histories of 1-10 requests x 0-4 writes x 1-2 saves per response; token lengths '
@@ -50,16 +50,16 @@ PROPS = {
         explanation='Lean: tamper_evident, frame_injective, foreign_rejected (under MacInj), decode_encode, opaque_contents; facts: block key passed to the cookie store; tie: tampered cookie predicted `bad` = absent; oracles: keyless extractor finds no planted secret, tampered value never read as session content',
     ),
     'C18': dict(
-        family='session', driver_family='handler', fields=['lines', 'attrs', 'dattrs'],
+        family='session', driver_family='handler', fields=['lines', 'attrs', 'dattrs', 'saveErr'],
         facts=['maxCookieSize', 'maxIncomingPathLength', 'absoluteSessionTimeoutSec', 'mainCookieName', 'accessTokenCookie', 'refreshTokenCookie', 'optHttpOnly', 'optSameSiteLax', 'optPathRoot',
-               'optMaxAgeIsSessionTimeout', 'optSecureIncludesForceHTTPS', 'saveAssignsOptionsToAll', 'securecookieMaxLen', 'cookieStoreKeyArgs'],
+               'optMaxAgeIsSessionTimeout', 'optSecureIncludesForceHTTPS', 'saveAssignsOptionsToAll', 'securecookieMaxLen', 'cookieValueCeiling', 'cookieStoreKeyArgs'],
         extra_runs=[dict(family='handler', diff=False)],
         trusted=['encoding/gob byte layout (DESIGN appendix B) - checked for equality on every line of every run', 'net/http Cookie.String attribute rendering'],
         rule='one case = one Set-Cookie line: in the session-API histories the exact byte length of every line is compared with the Lean length arithmetic evaluated on the model\'s own payloads; in the handler flows '
-             '(login with tokens at chunk boundaries, request URIs of 10-2100 bytes, refresh to another size, logout, expiry, recovery) every line is checked for prefix, Path=/, HttpOnly, SameSite=Lax, no Domain, Secure under forceHTTPS, '
+             '(e-mail values of 1 700-8 300 bytes around and above the ceiling included: the model says which saves are refused); (login with tokens at chunk boundaries, request URIs of 10-2100 bytes, refresh to another size, logout, expiry, recovery) every line is checked for prefix, Path=/, HttpOnly, SameSite=Lax, no Domain, Secure under forceHTTPS, '
              'Max-Age <= 86400 and length <= 4096; distinct = distinct (cookie name, length); non-trivial = all',
-        assumptions=['e-mail claim of at most 320 bytes (RFC 5321: 254); timestamps of ten digits (until 2286)'],
-        explanation='Lean: chunk_line_le_4096, whole_line_le_4096, main_line_le_4096, current_chunk_fits; facts: the sessions.Options literal and its assignment in Save; tie: exact line lengths; oracle: attributes and length of every raw Set-Cookie line',
+        assumptions=['timestamps of ten digits (until 2286)', 'that no Save fails for length is shown for e-mail claims of at most 320 bytes (RFC 5321: 254); the 4096-byte bound itself has no hypothesis on the content'],
+        explanation='Lean: every_emitted_line_le_4096 / current_every_line_le_4096 (any content: a line is emitted only within the codecs\' ceiling on the value, regenerated fact cookieValueCeiling), saves_fit, chunk_line_le_4096, whole_line_le_4096, main_line_le_4096, current_chunk_fits; facts: the sessions.Options literal and its assignment in Save; tie: exact line lengths; oracle: attributes and length of every raw Set-Cookie line',
     ),
     'C20': dict(
         family='discovery', fields=['r', 'doc', 'es', 'times'], timeout=1500,
